@@ -335,3 +335,257 @@ func c02r3(rc *core.RC) {
 	}
 	_ = fmt.Sprint
 }
+
+// ---- C02.R4 pooled element slots are initialised before the element decoder sees them ----
+
+func callsPoolGet(p *core.Program, fd *ast.FuncDecl) bool {
+	if fd == nil || fd.Body == nil {
+		return false
+	}
+	info := p.Info(fd)
+	found := false
+	ast.Inspect(fd.Body, func(n ast.Node) bool {
+		if c, ok := n.(*ast.CallExpr); ok && core.CalleeName(info, c) == "sync.Pool.Get" {
+			found = true
+		}
+		return true
+	})
+	return found
+}
+
+// geZero normalises a comparison to a linear form E with the meaning E >= 0.
+func geZero(le *core.LinearEval, e ast.Expr) core.Linear {
+	e = core.Unparen(e)
+	switch x := e.(type) {
+	case *ast.UnaryExpr:
+		if x.Op == token.NOT {
+			in := geZero(le, x.X)
+			if !in.OK {
+				return in
+			}
+			return core.LinConst(-1).Sub(in)
+		}
+	case *ast.BinaryExpr:
+		l, r := le.Eval(x.X), le.Eval(x.Y)
+		switch x.Op {
+		case token.LEQ:
+			return r.Sub(l)
+		case token.LSS:
+			return r.Sub(l).Sub(core.LinConst(1))
+		case token.GEQ:
+			return l.Sub(r)
+		case token.GTR:
+			return l.Sub(r).Sub(core.LinConst(1))
+		}
+	}
+	return core.Linear{}
+}
+
+func c02r4(rc *core.RC) {
+	p := rc.P
+	n := 0
+	for _, fd := range p.Funcs("decoder") {
+		if fd.Body == nil {
+			continue
+		}
+		info := p.Info(fd)
+		// slice := <call whose callee takes memory from a sync.Pool>
+		pooled := map[types.Object]bool{}
+		ast.Inspect(fd.Body, func(m ast.Node) bool {
+			as, ok := m.(*ast.AssignStmt)
+			if !ok || len(as.Lhs) != 1 || len(as.Rhs) != 1 {
+				return true
+			}
+			c, ok := core.Unparen(as.Rhs[0]).(*ast.CallExpr)
+			if !ok {
+				return true
+			}
+			if callee := core.Callee(info, c); callee != nil && callsPoolGet(p, p.DeclOf(callee)) {
+				if o := core.ObjOf(info, as.Lhs[0]); o != nil {
+					pooled[o] = true
+				}
+			}
+			return true
+		})
+		if len(pooled) == 0 || callsPoolGet(p, fd) {
+			continue
+		}
+		fn := p.FuncName(fd)
+		rc.Touch(fn)
+		// variables read from the pooled header
+		fromField := func(field string) map[types.Object]bool {
+			out := map[types.Object]bool{}
+			ast.Inspect(fd.Body, func(m ast.Node) bool {
+				as, ok := m.(*ast.AssignStmt)
+				if !ok || len(as.Lhs) != len(as.Rhs) {
+					return true
+				}
+				for i, r := range as.Rhs {
+					if sel, ok := core.Unparen(r).(*ast.SelectorExpr); ok && sel.Sel.Name == field && pooled[core.ObjOf(info, sel.X)] {
+						if o := core.ObjOf(info, as.Lhs[i]); o != nil {
+							out[o] = true
+						}
+					}
+				}
+				return true
+			})
+			return out
+		}
+		lens, datas := fromField("len"), fromField("data")
+		if len(lens) != 1 || len(datas) == 0 {
+			rc.Unknown(fn+"/pooled-slots", fd.Pos(), "the copies of the pooled header's len (%d) and data (%d) fields were not recognised", len(lens), len(datas))
+			continue
+		}
+		var srcLen types.Object
+		for o := range lens {
+			srcLen = o
+		}
+		// element pointers: ep := unsafe.Pointer(uintptr(data) + uintptr(idx)*size)
+		type slot struct {
+			ep, idx types.Object
+			def     *ast.AssignStmt
+		}
+		var slots []slot
+		ast.Inspect(fd.Body, func(m ast.Node) bool {
+			as, ok := m.(*ast.AssignStmt)
+			if !ok || len(as.Lhs) != 1 || len(as.Rhs) != 1 {
+				return true
+			}
+			usesData := false
+			var idx types.Object
+			ast.Inspect(as.Rhs[0], func(k ast.Node) bool {
+				if id, ok := k.(*ast.Ident); ok {
+					o := info.Uses[id]
+					if datas[o] {
+						usesData = true
+					}
+					if v, ok := o.(*types.Var); ok && !v.IsField() && v.Pkg() != nil && v.Parent() != v.Pkg().Scope() {
+						if b, ok := v.Type().Underlying().(*types.Basic); ok && b.Info()&types.IsInteger != 0 && b.Kind() != types.Uintptr {
+							idx = o
+						}
+					}
+				}
+				return true
+			})
+			if usesData && idx != nil {
+				if o := core.ObjOf(info, as.Lhs[0]); o != nil && o.Type().String() == "unsafe.Pointer" {
+					slots = append(slots, slot{o, idx, as})
+				}
+			}
+			return true
+		})
+		cf := core.BuildCFG(fd.Body, info)
+		le := &core.LinearEval{Info: info}
+		for _, sl := range slots {
+			// the element decoder calls that receive ep
+			ast.Inspect(fd.Body, func(m ast.Node) bool {
+				call, ok := m.(*ast.CallExpr)
+				if !ok {
+					return true
+				}
+				sel, ok := call.Fun.(*ast.SelectorExpr)
+				if !ok || (sel.Sel.Name != "Decode" && sel.Sel.Name != "DecodeStream") {
+					return true
+				}
+				has := false
+				for _, a := range call.Args {
+					if core.ObjOf(info, a) == sl.ep {
+						has = true
+					}
+				}
+				if !has {
+					return true
+				}
+				n++
+				key := fn + "/pooled-slot " + sl.ep.Name() + " → " + sel.Sel.Name
+				cb, _ := cf.BlockOf(call)
+				want := map[string]int64{sl.idx.Name(): 1, srcLen.Name(): -1}
+				verdict, why := "", ""
+				ast.Inspect(fd.Body, func(k ast.Node) bool {
+					ifs, ok := k.(*ast.IfStmt)
+					if !ok || verdict == "ok" {
+						return true
+					}
+					if !storesThrough(info, ifs.Body, sl.ep) && !storesThroughAddr(info, ifs.Body, sl.ep) {
+						return true
+					}
+					gb, _ := cf.BlockOf(ifs.Cond)
+					if gb == nil || cb == nil || !cf.Dominates(gb, cb) || !(sl.def.Pos() < ifs.Pos() && ifs.End() < call.Pos()) {
+						return true
+					}
+					g := geZero(le, ifs.Cond)
+					exact := g.OK && g.Const == 0
+					if exact {
+						for k2, c := range g.Terms {
+							if c != want[k2] {
+								exact = false
+							}
+						}
+						for k2, c := range want {
+							if g.Terms[k2] != c {
+								exact = false
+							}
+						}
+					}
+					if !exact {
+						verdict, why = "bad", fmt.Sprintf("the slot is cleared under `%s`, which is not equivalent to `%s <= %s`: a slot at or past the caller's length that the guard skips still holds what an earlier call left in the pooled array", core.Src(p.Fset, ifs.Cond), srcLen.Name(), sl.idx.Name())
+						return true
+					}
+					// every branch of the body stores
+					all := true
+					for _, st := range ifs.Body.List {
+						if in, ok := st.(*ast.IfStmt); ok {
+							if !(storesThrough(info, in.Body, sl.ep) || storesThroughAddr(info, in.Body, sl.ep)) {
+								all = false
+							}
+							if in.Else == nil || !(storesThrough(info, in.Else, sl.ep) || storesThroughAddr(info, in.Else, sl.ep)) {
+								all = false
+							}
+						}
+					}
+					if all {
+						verdict = "ok"
+					} else {
+						verdict, why = "bad", "a branch of the clearing statement does not store through the slot"
+					}
+					return true
+				})
+				switch verdict {
+				case "ok":
+					rc.OK(key, call.Pos(), "every slot at index >= %s is cleared (guard ≡ %s <= %s) before the element decoder receives it", srcLen.Name(), srcLen.Name(), sl.idx.Name())
+				case "bad":
+					rc.Bad(key, call.Pos(), "%s", why)
+				default:
+					rc.Bad(key, call.Pos(), "no statement between the slot computation and the element decoder clears the slot: elements are decoded over whatever an earlier call left in the pooled array")
+				}
+				return true
+			})
+		}
+	}
+	if n < 2 {
+		rc.Unknown("decoder/pooled-slots", token.NoPos, "found %d element-decoder calls on pooled slots", n)
+	}
+}
+
+// storesThroughAddr recognises `**(**unsafe.Pointer)(unsafe.Pointer(&ep)) = …`, a store through ep written via its address.
+func storesThroughAddr(info *types.Info, n ast.Node, dst types.Object) bool {
+	found := false
+	ast.Inspect(n, func(m ast.Node) bool {
+		as, ok := m.(*ast.AssignStmt)
+		if !ok {
+			return true
+		}
+		for _, l := range as.Lhs {
+			if st, ok := core.Unparen(l).(*ast.StarExpr); ok {
+				ast.Inspect(st.X, func(k ast.Node) bool {
+					if u, ok := k.(*ast.UnaryExpr); ok && u.Op == token.AND && core.ObjOf(info, u.X) == dst {
+						found = true
+					}
+					return true
+				})
+			}
+		}
+		return true
+	})
+	return found
+}
